@@ -270,6 +270,25 @@ func genC18Skip(r *rng, n int) []c18Item {
 	}
 	add(thrift.STRUCT, nil)
 	add(thrift.I32, []byte{1, 2})
+	// nesting depth around the limits (MaxSkipDepth = 1023 in Go, TB_SKIP_STACK_SIZE = 1024 in the native skipper):
+	// d nested lists list<list<...list<i32>>>, each with one element, the innermost one empty
+	for _, d := range []int{2, 500, 1000, 1021, 1022, 1023, 1024, 1025, 1026, 1100} {
+		var b []byte
+		for i := 0; i < d-1; i++ {
+			b = append(b, byte(thrift.LIST), 0, 0, 0, 1)
+		}
+		b = append(b, byte(thrift.I32), 0, 0, 0, 0)
+		add(thrift.LIST, b)
+		// the same depth through structs: struct{1: struct{1: ... struct{}}}
+		var sb []byte
+		for i := 0; i < d-1; i++ {
+			sb = append(sb, byte(thrift.STRUCT), 0, 1)
+		}
+		for i := 0; i < d; i++ {
+			sb = append(sb, 0)
+		}
+		add(thrift.STRUCT, sb)
+	}
 	return items
 }
 
